@@ -397,18 +397,79 @@ def gen_request(rng, N, rid, allow_bad=True):
             nodes.insert(k, gname)
             loose.insert(k, 'LOOSE')
         style += '+ghosts'
-    return {'id': str(rid), 'src': f'trx {a}', 'dst': f'trx {b}', 'nodes': nodes, 'loose': loose, 'style': style,
-            'bidir': rng.random() < 0.5}
+    rq = {'id': str(rid), 'src': f'trx {a}', 'dst': f'trx {b}', 'nodes': nodes, 'loose': loose, 'style': style,
+          'bidir': rng.random() < 0.5}
+    if sp and rng.random() < 0.07:
+        long_include_list(rng, N, rq, sp)
+    return choose_build(rng, rq)
+
+
+def long_include_list(rng, N, rq, sp):
+    """11-15 hops spelling a long route element by element (ROADMs and several line elements of every link, in order);
+    given as a JSON document whose route objects are listed in random order (the `index` fields carry the order)"""
+    p = max(sp, key=len)
+    full = []
+    for x, y in zip(p, p[1:]):
+        full += line_elements(N, x, y) + [f'roadm {y}']
+    full = full[:-1]                                           # not the last ROADM: keep it a genuine include list
+    if len(full) < 11:
+        return
+    k = rng.randint(11, min(15, len(full)))
+    idx = sorted(rng.sample(range(len(full)), k))
+    nodes = [full[i] for i in idx]
+    m = rng.random()
+    loose = (['STRICT'] * k if m < 0.5 else ['LOOSE'] * k if m < 0.75 else [rng.choice(['STRICT', 'LOOSE']) for _ in nodes])
+    perm = list(range(k))
+    rng.shuffle(perm)
+    rq.update(nodes=nodes, loose=loose, style='long_list_%d' % (11 if k < 13 else 13), build='json', json_perm=perm)
 
 
 def mk_request(rq, mode='mode 1'):
+    """the PathRequest of a generated request, built the way rq['build'] says:
+    'api' (default)  PathRequest(...) with explicit nodes_list / loose_list
+    'api_defaults'   PathRequest(...) WITHOUT nodes_list / loose_list when the request has no list (class defaults)
+    'json'           through json_io.requests_from_json from a service document whose route objects are listed in the
+                     order rq['json_perm'] (their `index` fields say the real order)"""
     from gnpy.topology.request import PathRequest
-    return PathRequest(request_id=rq['id'], source=rq['src'], destination=rq['dst'], trx_type='Voyager',
-                       trx_mode=mode, nodes_list=list(rq['nodes']), loose_list=list(rq['loose']), spacing=50e9,
-                       power=1e-3, nb_channel=80, bidir=rq.get('bidir', False),
-                       effective_freq_slot=[{'N': None, 'M': None}], path_bandwidth=rq.get('bw', 1e11),
-                       baud_rate=32e9, bit_rate=100e9, f_min=191.35e12, f_max=196.1e12, format=mode, OSNR=11,
-                       roll_off=0.15, tx_power=1e-3)
+    build = rq.get('build', 'api')
+    if build == 'json':
+        from gnpy.tools.json_io import requests_from_json
+        objs = [{'index': k, 'explicit-route-usage': 'route-include-ero',
+                 'num-unnum-hop': {'node-id': u, 'link-tp-id': 'link-tp-id is not used', 'hop-type': h}}
+                for k, (u, h) in enumerate(zip(rq['nodes'], rq['loose']))]
+        perm = rq.get('json_perm') or list(range(len(objs)))
+        doc = {'request-id': rq['id'], 'source': rq['src'], 'destination': rq['dst'], 'src-tp-id': rq['src'],
+               'dst-tp-id': rq['dst'], 'bidirectional': bool(rq.get('bidir', False)),
+               'path-constraints': {'te-bandwidth': {'technology': 'flexi-grid', 'trx_type': 'Voyager', 'trx_mode': mode,
+                                                     'effective-freq-slot': [{'N': None, 'M': None}], 'spacing': 50e9,
+                                                     'max-nb-of-channel': None, 'output-power': 1e-3,
+                                                     'path_bandwidth': rq.get('bw', 1e11)}}}
+        if objs:
+            doc['explicit-route-objects'] = {'route-object-include-exclude': [objs[k] for k in perm]}
+        return requests_from_json({'path-request': [doc]}, eqpt())[0]
+    kw = dict(request_id=rq['id'], source=rq['src'], destination=rq['dst'], trx_type='Voyager',
+              trx_mode=mode, spacing=50e9, power=1e-3, nb_channel=80, bidir=rq.get('bidir', False),
+              effective_freq_slot=[{'N': None, 'M': None}], path_bandwidth=rq.get('bw', 1e11),
+              baud_rate=32e9, bit_rate=100e9, f_min=191.35e12, f_max=196.1e12, format=mode, OSNR=11,
+              roll_off=0.15, tx_power=1e-3)
+    if not (build == 'api_defaults' and not rq['nodes']):
+        kw.update(nodes_list=list(rq['nodes']), loose_list=list(rq['loose']))
+    return PathRequest(**kw)
+
+
+def choose_build(rng, rq):
+    """how the request object is built (see mk_request); stored in the case so that a replay builds it the same way"""
+    if 'build' in rq:
+        return rq
+    r = rng.random()
+    if r < 0.3:
+        rq['build'] = 'json'
+        perm = list(range(len(rq['nodes'])))
+        rng.shuffle(perm)
+        rq['json_perm'] = perm
+    elif r < 0.65:
+        rq['build'] = 'api_defaults'
+    return rq
 
 
 # ------------------------------------------------------------------ gnpy driver
